@@ -50,6 +50,9 @@ def has_ref_data(n):
 
 
 def run(ctx, rep):
+    from . import c10
+
+    c10.rule_thick(ctx, rep)  # a thin handle taken back from its raw pointer shows the slice its block holds: the length is read from that block's own header
     for tag, F, E in ctx.each(da=False):
         N = ptrclass.Norm(F)
         PF = N.handle_ptr_fields  # the pointer field of each handle kind (private names are not hard-wired)
